@@ -25,7 +25,7 @@ EXPLANATION = (
     "reach the backend, a hit never reaches the executor and a store happens only after the executor returned; (R7) on a hit the routing decision "
     "is restored (and its internal key removed) before the state is written; (R8) the in-memory LRU only ever removes entries; (R9) emit "
     "outputs — compared by identity against one module constant — are re-bound to that constant when an entry is served, because a "
-    "serialising backend returns a copy."
+    "serialising backend returns a copy. R7 also requires that the routing decision is stored as the gate recorded it and restored as it was stored (readers dispatch on its type)."
 )
 NOT_DECIDED = "Equality of cached and uncached runs as such; behaviour of the third-party diskcache store (assumed: stored bytes come back as bytes or as a non-bytes object; its own calls do not raise); that definition_hash distinguishes any two different functions."
 
